@@ -215,6 +215,7 @@ def run_symx_check(module, tier, seed):
     cuts = {}
     models = {}
     twin_ok = {}
+    reached = {}
     for r in results:
         s = Stats()
         for k, v in r["stats"].items():
@@ -229,6 +230,7 @@ def run_symx_check(module, tier, seed):
         ph["wall"] = round(ph["wall"] + r["wall"], 2)
         models[r["model"]] = models.get(r["model"], 0) + s.queries
         twin_ok[r["name"]] = twin_ok.get(r["name"], 0) + s.paths
+        reached[r["name"]] = reached.get(r["name"], 0) + r.get("twin_reached", 0)
         for v in r["violations"]:
             v = dict(v)
             v["harness"] = r["name"]
@@ -250,6 +252,8 @@ def run_symx_check(module, tier, seed):
     for name, n in twin_ok.items():
         if n == 0:
             engine_errors.append("harness %s completed no path (vacuous)" % name)
+        elif reached.get(name, 0) == 0:
+            engine_errors.append("harness %s never reached its obligations on any completed path (vacuous)" % name)
     extra = {}
     if hasattr(module, "extra"):
         extra = module.extra(tier, seed) or {}
@@ -277,6 +281,7 @@ def run_symx_check(module, tier, seed):
         "solver_s": round(total.solver_s, 2),
         "number_models": models,
         "per_harness": per_harness,
+        "paths_reaching_obligations": reached,
         "functions_encoded": function_hashes(module.FUNCTIONS),
         "bounds": module.BOUNDS(tier) if callable(module.BOUNDS) else module.BOUNDS,
         "stubs": module.STUBS,
